@@ -303,6 +303,129 @@ def _run_hyp(suite, tier, n, seed_val, known, stats):
     return None
 
 
+# --------------------------------------------------------------- coverage-guided campaigns (Atheris)
+
+
+def _shrink_case(suite, case, kind, known, budget_s=40):
+    """Greedy structural minimisation of a plain-data case (used for failures found by the fuzzer, which
+    Hypothesis cannot shrink): drop list elements, shorten str/bytes, while the same violation kind remains."""
+    deadline = time.time() + budget_s
+
+    def fails(c):
+        try:
+            execute(suite, c, known, None)
+        except Violation as v:
+            return v.kind == kind
+        except Exception:
+            return False
+        return False
+
+    def variants(x):
+        if isinstance(x, (str, bytes)):
+            n = len(x)
+            if n:
+                yield x[:0]
+                yield x[:n // 2]
+                yield x[n // 2:]
+                for i in range(min(n, 40)):
+                    yield x[:i] + x[i + 1:]
+        elif isinstance(x, list):
+            n = len(x)
+            if n:
+                yield x[:n // 2]
+                yield x[n // 2:]
+                for i in range(min(n, 30)):
+                    yield x[:i] + x[i + 1:]
+            for i, e in enumerate(x[:30]):
+                for v in variants(e):
+                    yield x[:i] + [v] + x[i + 1:]
+        elif isinstance(x, dict):
+            for k in sorted(x):
+                for v in variants(x[k]):
+                    y = dict(x)
+                    y[k] = v
+                    yield y
+        elif isinstance(x, int) and not isinstance(x, bool) and x not in (0, 1, -1):
+            yield 0
+            yield x // 2
+
+    best = case
+    improved = True
+    while improved and time.time() < deadline:
+        improved = False
+        for cand in variants(best):
+            if time.time() > deadline:
+                break
+            if len(core.dumps(cand)) < len(core.dumps(best)) and fails(cand):
+                best = cand
+                improved = True
+                break
+    return best
+
+
+def _run_fuzz_campaigns(prop, suites, tier, base_seed, known):
+    """Returns (per-suite aggregates, failure or None, notes)."""
+    import shutil
+    import subprocess
+    import tempfile
+
+    jobs = []
+    for s in suites:
+        if getattr(s, 'fuzz_decode', None) is None:
+            continue
+        runs = getattr(s, 'fuzz_runs', {}).get(tier, 0)
+        if not runs:
+            continue
+        shards = getattr(s, 'fuzz_shards', {}).get(tier, 4)
+        for k in range(shards):
+            jobs.append((s, k, runs // shards, derive_seed(base_seed, prop, s.name + '#fuzz', k)))
+    if not jobs:
+        return {}, None, []
+    try:
+        sys.path.append(boot.DEPS)
+        import atheris  # noqa: F401
+    except Exception as e:  # noqa
+        return {}, None, ['atheris not importable (%s): coverage-guided campaigns skipped' % type(e).__name__]
+    agg, fail, notes = {}, None, []
+    procs = []
+    env = dict(os.environ, PYTHONPATH=ROOT + os.pathsep + boot.DEPS, VERIF_REPO=boot.REPO)
+    for s, k, runs, seed_val in jobs:
+        out = tempfile.mkdtemp(prefix='vf-fuzz-')
+        p = subprocess.Popen([sys.executable, '-B', '-m', 'vf.fuzz', prop, s.name, str(runs), str(seed_val), out],
+                             cwd=ROOT, env=env, stdout=subprocess.DEVNULL, stderr=subprocess.DEVNULL)
+        procs.append((s, k, out, p))
+    for s, k, out, p in procs:
+        try:
+            p.wait(timeout=getattr(s, 'fuzz_timeout', 3600))
+        except subprocess.TimeoutExpired:
+            p.kill()
+            notes.append('campaign %s#%d stopped at its time budget (inconclusive)' % (s.name, k))
+        name = s.name + ' (atheris)'
+        a = agg.setdefault(name, {'evaluations': 0, 'nontrivial': set(), 'labels': {}, 'samples': [], 'excluded': {},
+                                  'nontrivial_count': 0, 'suite': s})
+        sp = os.path.join(out, 'stats.json')
+        if os.path.exists(sp):
+            st = json.load(open(sp))
+            a['evaluations'] += st.get('decoded', 0)
+            a['nontrivial_count'] += st.get('nontrivial', 0)
+            for lb, n in st.get('labels', {}).items():
+                a['labels'][lb] = a['labels'].get(lb, 0) + n
+            if len(a['samples']) < 2:
+                a['samples'].extend(core.loads(json.dumps(x)) for x in st.get('samples', [])[:1])
+        vp = os.path.join(out, 'violation.json')
+        if os.path.exists(vp) and fail is None:
+            body = core.loads(open(vp).read())
+            small = _shrink_case(s, body['case'], body['violation']['kind'], known)
+            try:
+                execute(s, small, known, None)
+                detail = body['violation']['detail']
+            except Violation as v:
+                detail = v.detail
+            fail = {'suite': s.name, 'case': small, 'kind': body['violation']['kind'], 'detail': detail, 'index': -1}
+        shutil.rmtree(out, ignore_errors=True)
+    return agg, fail, notes
+
+
 # --------------------------------------------------------------- main
 
 
@@ -463,6 +586,13 @@ def main(argv):
                         pool.terminate()
                         break
 
+    # ---- coverage-guided campaigns (suites that provide fuzz_decode; thorough tier by default)
+    fuzz_agg, fuzz_fail, fuzz_notes = ({}, None, [])
+    if not violations and not harness_errors and not any(r.get('fail') for r in results):
+        fuzz_agg, fuzz_fail, fuzz_notes = _run_fuzz_campaigns(prop, suites, tier, base_seed, known)
+    for n in fuzz_notes:
+        print('NOTE: ' + n)
+
     # ---- aggregate
     agg = {}
     for r in results:
@@ -477,6 +607,13 @@ def main(argv):
             a['excluded'][k] = a['excluded'].get(k, 0) + v
         if len(a['samples']) < 2:
             a['samples'].extend(st['samples'][:1])
+    for name, a in fuzz_agg.items():
+        # the fuzzing process counts distinct non-trivial cases itself; represent them by synthetic ids
+        a['nontrivial'] = set((name, i) for i in range(a.pop('nontrivial_count')))
+        a.pop('suite', None)
+        agg[name] = a
+    if fuzz_fail is not None:
+        results.append({'suite': fuzz_fail['suite'], 'shard': -1, 'fail': fuzz_fail, 'stats': Stats().export()})
     fails = [r for r in results if r.get('fail')]
     if fails:
         # deterministic choice: smallest enumeration index, else first
@@ -499,7 +636,7 @@ def main(argv):
         rc = 1
 
     _write_evidence(prop, mod, suites, tier, base_seed, agg, wall, len(violations), known_lines,
-                    n_replays, complete=(rc == 0))
+                    n_replays, complete=(rc == 0), notes=fuzz_notes)
     total = sum(a['evaluations'] for a in agg.values())
     nt = sum(len(a['nontrivial']) for a in agg.values())
     print('%s %s seed=%d: %d cases (%d distinct non-trivial) in %d suites, %.1fs, %s'
@@ -508,13 +645,22 @@ def main(argv):
     return rc
 
 
-def _write_evidence(prop, mod, suites, tier, seed, agg, wall, nviol, known_lines, n_replays, complete):
+def _write_evidence(prop, mod, suites, tier, seed, agg, wall, nviol, known_lines, n_replays, complete, notes=None):
     total = sum(a['evaluations'] for a in agg.values())
     nt = sum(len(a['nontrivial']) for a in agg.values())
     samples = []
     per_suite = {}
     excluded = {}
-    for s in suites:
+    class _Pseudo(object):
+        exhaustive = False
+
+        def __init__(self, name, doc):
+            self.name = name
+            self.__doc__ = doc
+    ev_suites = list(suites) + [_Pseudo(n, 'Coverage-guided (Atheris/libFuzzer) campaign over the same oracle: raw bytes decoded into a case by '
+                                        'the suite, falcon instrumented for coverage feedback; evaluations = inputs that decoded to a case.')
+                                for n in agg if n.endswith(' (atheris)')]
+    for s in ev_suites:
         a = agg.get(s.name)
         if not a:
             continue
@@ -548,6 +694,7 @@ def _write_evidence(prop, mod, suites, tier, seed, agg, wall, nviol, known_lines
             'known_findings_reproduced': known_lines,
             'regression_replays_run': n_replays,
             'exhaustive': bool(per_suite) and all(v['exhaustive'] for v in per_suite.values()),
+            'notes': list(notes or []),
             'source_fingerprint': boot.source_fingerprint(),
             'repo': boot.REPO,
         },
